@@ -229,11 +229,11 @@ static int take_node(void)
 	return -1;
 }
 
-static void op_enqueue(int q, int inl)
+static int op_enqueue(int q, int inl)
 {
 	int n = take_node(), t = vrt_self();
 	bool r;
-	if (n < 0) { vrt_point(); return; }
+	if (n < 0) { vrt_point(); return 0; }	/* no free node: nothing enqueued (one scheduling point, no library call) */
 	vrt_log("CALL enq q%d n%d", q + 1, n + 3);
 	cds_wfcq_node_init(&ND[n]);
 	if (inl) r = _cds_wfcq_enqueue(&H[q], &TL[q], &ND[n]);
@@ -244,6 +244,7 @@ static void op_enqueue(int q, int inl)
 			 n + 3, q + 1, (int)r, last_enq_was_nonempty[t] ? "non-empty" : "empty");
 	if (nstate[n] == N_TAKEN)
 		vrt_fail("lost", "enqueue of n%d returned without exchanging the tail", n + 3);
+	return 1;
 }
 
 static void op_empty(int q)
@@ -447,6 +448,15 @@ static void solo_end(const char *op, unsigned long bound)
 		vrt_freeze(i, 0);
 }
 
+/* the operation did not take place (no free node): end the solo window without a step count */
+static void solo_cancel(void)
+{
+	int i;
+	in_solo = 0;
+	for (i = 1; i < vrt_nthreads(); i++)
+		vrt_freeze(i, 0);
+}
+
 #if defined(CONFIG_RCU_EMIT_LEGACY_MB) && !defined(NO_LEGACY_MB)
 #define LEGACY 1
 #else
@@ -462,9 +472,11 @@ static void *enqueuer(void *arg)
 		unsigned c = vrt_rand() % 100, q = vrt_rand() % 2;
 		int solo = c17 && vrt_rand() % 3 == 0;
 		if (c < 80) {
+			int done;
 			if (solo) solo_begin();
-			op_enqueue(q, vrt_rand() % 4 == 0);
-			if (solo) solo_end("enq", 2 + LEGACY);
+			done = op_enqueue(q, vrt_rand() % 4 == 0);
+			if (solo && done) solo_end("enq", 2 + LEGACY);
+			else if (solo) solo_cancel();
 		} else {
 			if (solo) solo_begin();
 			op_empty(q);
